@@ -103,8 +103,16 @@ def declare2(S: Spec):
                   "implies(old(self._runtime_status) is not None, result is old(self._runtime_status))",
                   "implies(old(self._runtime_status) is None, fresh(result) and result.arrival_tick is None and result.finish_tick is None and result.pipeline == self)"],
          modifies=["self._runtime_status"], allocates=True,
-         note="assumed summary of the lazy creation (get-or-create; a created status has no arrival/finish tick yet); monitored natively")
-    S.fns[f"{MP}:Pipeline.runtime_status#lazy"].trusted = True
+         owners=["C06"],
+         note="get-or-create of the real method, verified against the assumed summary of PipelineRuntimeStatus.__init__ below")
+    MRS_ = "eudoxia.workload.runtime_status"
+    if f"{MRS_}:PipelineRuntimeStatus.__init__" not in S.fns:
+        S.fn(f"{MRS_}:PipelineRuntimeStatus.__init__", params={"pipeline": Ref("Pipeline")},
+             requires=[], ensures=["self.pipeline == pipeline", "self.arrival_tick is None", "self.finish_tick is None"],
+             modifies=[], allocates=True,
+             note="assumed summary of the status constructor (a created status belongs to the given pipeline and has no arrival/finish tick yet; "
+                  "its operator table is not described here); monitored natively")
+        S.fns[f"{MRS_}:PipelineRuntimeStatus.__init__"].trusted = True
 
     S.fn(f"{MS}:sim_track_arrivals", owners=["C06"],
          params={"new_pipelines": List(Ref("Pipeline")), "tick_number": INT, "outstanding_pipelines": Dict(STR, Ref("Pipeline")),
